@@ -52,6 +52,11 @@ prop("C14", "E-GEN",
      "Every model of the annotated-model family (17k models quick: every node kind, ordered rule selections from per-kind pools, notes, key shortcuts, 2 levels) is rendered under every layout that differs from the canonical one in <=2 of 6 presentation dimensions (thorough: all 575 combinations) and must give the same verdict and error code and, when accepted, byte-identical AST, example, used types and OpenAPI; the repository's own test schemas are re-checked under CRLF/CR/blank-line/line-end-padding transformations.",
      "The canonical rendering defines the meaning; messages and positions may differ between renderings.")
 
+prop("C15", "E-GEN",
+     "bounded exhaustive enumeration of schema texts x follow-up texts; Len() compared with itself on prefix and extension, verdict/AST compared on the prefix",
+     "For every canonical rendering of the annotated-model family and every valid schema of the test corpus: Len<=|S|, S[:Len] has the same verdict and AST, Len is idempotent, and for accepted S Len(S + LF|CRLF + b + rest) = Len(S) for the non-blank first bytes b other than / and # (all 250 for every 16th model and the whole corpus, 28 byte classes otherwise; thorough: all 250 everywhere) x 11 rests.",
+     "Follow-up text starts on a new line with a non-blank byte; texts for which Len() returns an error carry no claim.")
+
 ORDER = ["C%02d" % i for i in range(1, 21)]
 
 def main():
